@@ -13,7 +13,7 @@ from vf.engine import Violation, InvalidCase
 from vf.fixtures import check, sized_lists, wone_of
 
 PROPERTY = "C18"
-BUDGET = {"quick": 1200, "thorough": 4000}
+BUDGET = {"quick": 3000, "thorough": 9000}
 RULE = ("1-3 model descriptions, each with 0-4 systems (unique ids, arbitrary priority/start/frequency/end) and 0-4 agent groups "
         "(sizes 0-4, distinct prefixes), any subset of the six hook kinds, 'module' keys present or absent (fixtures are then "
         "resolved through __main__), decoded alternately and repeatedly (2-5 decodes) in one process through a dict-returning "
@@ -30,52 +30,78 @@ EVENTS = []
 SEEN = []
 CURRENT = {}
 ME = "vf.props.c18"
-NAMES = ("DModel", "DSystem", "DAgent", "hook", "swap_env_hook")
+NAMES = ("DModel", "DSystem", "DAgent", "hook", "swap_env_hook", "nested_hook")
+NESTED = {}
+INNER = {"model": {"name": "DModel", "module": ME, "params": {"tag": "inner"}},
+         "systems": [{"name": "DSystem", "module": ME, "params": {"id": "isys", "priority": 3}}],
+         "agents": [{"name": "DAgent", "module": ME, "number": 2, "params": {"prefix": "in_"}}]}
 
 
-class DModel(Model, IDecodable):
-    def __init__(self, tag):
-        super().__init__()
-        self.tag_name = tag
+def make_fixtures(origin):
+    """the model / system / agent classes and hook functions a description names. Two sets exist: the one found in this module
+    (origin 'mod') and the one found in __main__ under the SAME names (origin 'main'): every event records through which of
+    the two its fixture was resolved, so a 'module' key that is ignored, defaulted wrongly or taken from a neighbouring entry shows"""
 
-    @staticmethod
-    def decode(params: dict):
-        m = DModel(params.get("tag"))
-        EVENTS.append(("model", params.get("tag")))
-        CURRENT["model"] = m
-        return m
+    class DModel(Model, IDecodable):
+        def __init__(self, tag):
+            super().__init__()
+            self.tag_name = tag
+
+        @staticmethod
+        def decode(params: dict):
+            m = DModel(params.get("tag"))
+            EVENTS.append(("model", params.get("tag"), origin))
+            CURRENT["model"] = m
+            return m
+
+    class DSystem(System, IDecodable):
+        def execute(self):
+            EVENTS.append(("exec", self.id))
+
+        @staticmethod
+        def decode(params: dict):
+            EVENTS.append(("system", params["id"], params.get("model") is CURRENT.get("model"), origin))
+            kw = {k: params[k] for k in ("priority", "frequency", "start", "end") if k in params}
+            return DSystem(params["id"], params["model"], **kw)
+
+    class DAgent(Agent, IDecodable):
+        @staticmethod
+        def decode(params: dict):
+            EVENTS.append(("agent", params["prefix"], params.get("agent_index"), params.get("model") is CURRENT.get("model"), origin))
+            return DAgent(params["prefix"] + str(params["agent_index"]), params["model"])
+
+    def hook(params: dict):
+        EVENTS.append(("hook", params["key"], (params["model"] is CURRENT.get("model")) if "model" in params else None, origin))
+        if "model" in params:          # what the hook can SEE: systems registered and agents in the environment so far
+            m = params["model"]
+            SEEN.append((params["key"], len(m.systems.systems), len(m.environment)))
+
+    def swap_env_hook(params: dict):
+        """a pre-agent hook that gives the model a fresh environment: agents decoded afterwards must go into THAT environment"""
+        from ECAgent.Core import Environment
+        EVENTS.append(("hook", params["key"], (params["model"] is CURRENT.get("model")) if "model" in params else None, origin))
+        params["model"].set_environment(Environment(params["model"]))
+
+    def nested_hook(params: dict):
+        """a hook that decodes ANOTHER description with the same decoder object (a sub-model, a template...) before behaving
+        like the ordinary hook: the decode in progress must carry on with its own model afterwards"""
+        saved = (list(EVENTS), list(SEEN), dict(CURRENT))
+        try:
+            NESTED["results"].append(NESTED["decoder"].decode(NESTED["name"]))
+        except Exception as e:      # noqa: reported by run_case
+            NESTED["results"].append(e)
+        EVENTS[:], SEEN[:] = saved[0], saved[1]
+        CURRENT.clear()
+        CURRENT.update(saved[2])
+        hook(params)
+
+    for c in (DModel, DSystem, DAgent):
+        c.__qualname__ = c.__name__
+    return {"DModel": DModel, "DSystem": DSystem, "DAgent": DAgent, "hook": hook, "swap_env_hook": swap_env_hook, "nested_hook": nested_hook}
 
 
-class DSystem(System, IDecodable):
-    def execute(self):
-        EVENTS.append(("exec", self.id))
-
-    @staticmethod
-    def decode(params: dict):
-        EVENTS.append(("system", params["id"], params.get("model") is CURRENT.get("model")))
-        kw = {k: params[k] for k in ("priority", "frequency", "start", "end") if k in params}
-        return DSystem(params["id"], params["model"], **kw)
-
-
-class DAgent(Agent, IDecodable):
-    @staticmethod
-    def decode(params: dict):
-        EVENTS.append(("agent", params["prefix"], params.get("agent_index"), params.get("model") is CURRENT.get("model")))
-        return DAgent(params["prefix"] + str(params["agent_index"]), params["model"])
-
-
-def hook(params: dict):
-    EVENTS.append(("hook", params["key"], (params["model"] is CURRENT.get("model")) if "model" in params else None))
-    if "model" in params:          # what the hook can SEE: systems registered and agents in the environment so far
-        m = params["model"]
-        SEEN.append((params["key"], len(m.systems.systems), len(m.environment)))
-
-
-def swap_env_hook(params: dict):
-    """a pre-agent hook that gives the model a fresh environment: agents decoded afterwards must go into THAT environment"""
-    from ECAgent.Core import Environment
-    EVENTS.append(("hook", params["key"], (params["model"] is CURRENT.get("model")) if "model" in params else None))
-    params["model"].set_environment(Environment(params["model"]))
+globals().update(make_fixtures("mod"))
+MAIN_FIXTURES = make_fixtures("main")
 
 
 class DictDecoder(Decoder):
@@ -92,8 +118,20 @@ def _mod(d, use_module):
     return d
 
 
+class _PerEntry:
+    """'module' key per entry: the description's default, flipped for the entries whose bit is set in spec['mix']"""
+
+    def __init__(self, spec):
+        self.default, self.mix, self.k = bool(spec.get("module", True)), int(spec.get("mix", 0)), 0
+
+    def __bool__(self):
+        use = self.default ^ bool((self.mix >> (self.k % 20)) & 1)
+        self.k += 1
+        return use
+
+
 def build_description(spec, di):
-    use_mod = bool(spec.get("module", True))
+    use_mod = _PerEntry(spec)
     desc = {"model": _mod({"name": "DModel", "params": {"tag": f"d{di}"}}, use_mod), "systems": [], "agents": []}
     hooks = spec.get("hooks", {})
     if hooks.get("pre_model"):
@@ -125,29 +163,45 @@ def build_description(spec, di):
         if g.get("post"):
             gd["post_agent_init"] = _mod({"func": "hook", "params": {"key": f"d{di}:post_grp{gi}"}}, use_mod)
         desc["agents"].append(gd)
+    ko = int(spec.get("key_order", 0))
+    if ko:
+        # the members of a JSON object have no order: write the sections (and the members of every entry) in another order
+        import itertools as _it
+        top = list(desc)
+        perm = list(_it.permutations(range(len(top))))[ko % max(1, len(list(_it.permutations(range(len(top))))))]
+        desc = {top[i]: desc[top[i]] for i in perm}
+        for sec in ("systems", "agents"):
+            desc[sec] = [dict(reversed(list(e.items()))) if (ko >> 3) & 1 else e for e in desc[sec]]
+    if spec.get("nest_at") is not None:
+        slots = [d_ for d_ in [desc.get("pre_model_decode"), desc.get("post_model_decode")] if d_] + \
+                [sd[k] for sd in desc["systems"] for k in ("pre_system_init", "post_system_init") if k in sd] + \
+                [gd[k] for gd in desc["agents"] for k in ("pre_agent_init", "post_agent_init") if k in gd and gd[k]["func"] == "hook"]
+        if slots:
+            slots[int(spec["nest_at"]) % len(slots)]["func"] = "nested_hook"
     return desc
 
 
 def expected_events(desc, di):
     ev = []
+    org = lambda entry: "mod" if "module" in entry else "main"      # an entry without a 'module' key is resolved through __main__
     if "pre_model_decode" in desc:
-        ev.append(("hook", f"d{di}:pre_model", None))
-    ev.append(("model", f"d{di}"))
+        ev.append(("hook", f"d{di}:pre_model", None, org(desc["pre_model_decode"])))
+    ev.append(("model", f"d{di}", org(desc["model"])))
     for si, sd in enumerate(desc["systems"]):
         if "pre_system_init" in sd:
-            ev.append(("hook", f"d{di}:pre_sys{si}", True))
-        ev.append(("system", f"sys{si}", True))
+            ev.append(("hook", f"d{di}:pre_sys{si}", True, org(sd["pre_system_init"])))
+        ev.append(("system", f"sys{si}", True, org(sd)))
         if "post_system_init" in sd:
-            ev.append(("hook", f"d{di}:post_sys{si}", True))
+            ev.append(("hook", f"d{di}:post_sys{si}", True, org(sd["post_system_init"])))
     for gi, gd in enumerate(desc["agents"]):
         if "pre_agent_init" in gd:
-            ev.append(("hook", f"d{di}:pre_grp{gi}", True))
+            ev.append(("hook", f"d{di}:pre_grp{gi}", True, org(gd["pre_agent_init"])))
         for i in range(gd["number"]):
-            ev.append(("agent", f"g{gi}_", i, True))
+            ev.append(("agent", f"g{gi}_", i, True, org(gd)))
         if "post_agent_init" in gd:
-            ev.append(("hook", f"d{di}:post_grp{gi}", True))
+            ev.append(("hook", f"d{di}:post_grp{gi}", True, org(gd["post_agent_init"])))
     if "post_model_decode" in desc:
-        ev.append(("hook", f"d{di}:post_model", None))
+        ev.append(("hook", f"d{di}:post_model", None, org(desc["post_model_decode"])))
     return ev
 
 
@@ -157,15 +211,17 @@ def run_case(case):
         raise InvalidCase("no descriptions")
     main = sys.modules["__main__"]
     saved = {n: getattr(main, n, None) for n in NAMES}
-    me = sys.modules[ME]
     for n in NAMES:
-        setattr(main, n, getattr(me, n))
+        setattr(main, n, MAIN_FIXTURES[n])
     labels = set()
     nontrivial = False
     try:
         with tempfile.TemporaryDirectory(prefix="vf_c18_") as tmp:
             pristine = [build_description(s, di) for di, s in enumerate(specs)]
             table = {f"desc{di}": copy.deepcopy(d) for di, d in enumerate(pristine)}     # reused dict objects (get mutated)
+            table["inner"] = copy.deepcopy(INNER)
+            with open(os.path.join(tmp, "inner.json"), "w") as fh:
+                json.dump(INNER, fh)
             for di, d in enumerate(pristine):
                 with open(os.path.join(tmp, f"desc{di}.json"), "w") as fh:
                     json.dump(d, fh)
@@ -177,14 +233,25 @@ def run_case(case):
                 del SEEN[:]
                 CURRENT.clear()
                 where = f"decode #{n} of description {di} via {'JsonDecoder' if via_json else 'dict Decoder'}"
+                decoder = JsonDecoder() if via_json else DictDecoder(table)
+                NESTED.clear()
+                NESTED.update({"decoder": decoder, "name": os.path.join(tmp, "inner.json") if via_json else "inner", "results": []})
                 try:
                     if via_json:
-                        model = JsonDecoder().decode(os.path.join(tmp, f"desc{di}.json"))
+                        model = decoder.decode(os.path.join(tmp, f"desc{di}.json"))
                     else:
-                        model = DictDecoder(table).decode(f"desc{di}")
+                        model = decoder.decode(f"desc{di}")
                 except Exception as e:
                     raise Violation("decode-raised", f"{where}: {type(e).__name__}: {e}; description {_brief(desc)}")
                 labels.add("json" if via_json else "dict")
+                for inner in NESTED["results"]:
+                    labels.add("hook-decodes-another-description")
+                    if isinstance(inner, Exception):
+                        raise Violation("nested-decode-raised", f"{where}: decoding another description from inside a hook raised {type(inner).__name__}: {inner}")
+                    got_inner = (getattr(inner, "tag_name", None), sorted(str(k) for k in inner.systems.systems), [a.id for a in inner.environment])
+                    if inner is model or got_inner != ("inner", ["isys"], ["in_0", "in_1"]):
+                        raise Violation("nested-decode-mixed-up", f"{where}: the description decoded from inside a hook yielded (tag, systems, agents) = "
+                                                                  f"{got_inner}{' - the very model of the outer decode' if inner is model else ''}; description {_brief(desc)}")
                 exp = expected_events(desc, di)
                 got = list(EVENTS)
                 if got != exp:
@@ -195,8 +262,10 @@ def run_case(case):
                     elif any(e[0] == "agent" for e in got) != any(e[0] == "agent" for e in exp) or \
                             len([e for e in got if e[0] == "agent"]) != len([e for e in exp if e[0] == "agent"]):
                         clause = "agent-count-or-index"
-                    elif any(e[-1] is False for e in got):
+                    elif any(x is False for e in got for x in e):
                         clause = "model-not-passed"
+                    elif [e[:-1] for e in got] == [e[:-1] for e in exp]:
+                        clause = "resolved-through-wrong-module"
                     raise Violation(clause, f"{where}: event {i}: got {got[i:i + 3]}, expected {exp[i:i + 3]}; description {_brief(desc)}")
                 # what system-/agent-level hooks saw when they ran: everything listed before them already exists
                 exp_seen, nsys, nag = [], 0, 0
@@ -259,6 +328,12 @@ def run_case(case):
                     nontrivial = True
                 if "module" not in desc["model"]:
                     labels.add("module-default-main")
+                keys = ["module" in e_ for e_ in [desc["model"]] + desc["systems"] + desc["agents"] +
+                        [sd[k_] for sd in desc["systems"] + desc["agents"] for k_ in sd if k_.startswith(("pre_", "post_"))]]
+                if len(set(keys)) == 2:
+                    labels.add("module-keys-mixed-within-description")
+                if list(desc).index("agents") < list(desc).index("systems"):
+                    labels.add("agents-section-written-before-systems")
                 if any(g["number"] == 0 for g in desc["agents"]):
                     labels.add("empty-group")
             if len(order) > len(set(order)):
@@ -285,10 +360,10 @@ def strategy(tier):
                                     "end": wone_of(st.none(), st.integers(-1, 9)), "pre": st.booleans(), "post": st.booleans()})
     group = st.fixed_dictionaries({"n": st.integers(0, 4), "pre": st.booleans(), "post": st.booleans(), "junk": st.sampled_from([False, False, True]),
                                    "swap": st.sampled_from([False, False, False, True])})
-    desc = st.fixed_dictionaries({"systems": st.lists(system, max_size=4), "groups": st.lists(group, max_size=4),
+    desc = st.fixed_dictionaries({"nest_at": st.sampled_from([None, None, None, 0, 1, 2, 3, 5]), "key_order": st.sampled_from([0, 0]) | st.integers(0, 119), "mix": st.sampled_from([0, 0, 0]) | st.integers(0, 2 ** 12 - 1), "systems": st.lists(system, max_size=4), "groups": st.lists(group, max_size=4),
                                   "hooks": st.fixed_dictionaries({"pre_model": st.booleans(), "post_model": st.booleans()}),
                                   "module": st.sampled_from([True, True, False])})
-    rich = st.fixed_dictionaries({"systems": st.lists(system, min_size=2, max_size=4), "groups": st.lists(group, min_size=2, max_size=4),
+    rich = st.fixed_dictionaries({"nest_at": st.sampled_from([None, None, None, 0, 1, 2, 3, 5]), "key_order": st.sampled_from([0, 0]) | st.integers(0, 119), "mix": st.sampled_from([0, 0, 0]) | st.integers(0, 2 ** 12 - 1), "systems": st.lists(system, min_size=2, max_size=4), "groups": st.lists(group, min_size=2, max_size=4),
                                   "hooks": st.fixed_dictionaries({"pre_model": st.booleans(), "post_model": st.booleans()}),
                                   "module": st.sampled_from([True, True, False])})
     from vf.fixtures import near_pow2
